@@ -11,7 +11,11 @@ CONST_ID = {n: i for i, n in enumerate(CONST)}
 # opcode numbers fixed by convention with coq/Asm/Model.v (OPC_*)
 OPC_FIXED = {"rvrt": 1, "lw": 2, "sw": 3, "cfei": 4, "cfsi": 5, "movi": 6, "add": 7, "slli": 8, "mcp": 9, "mcpi": 10,
              # organisational ops that are not labels/jumps (ControlFlowOp::{Comment, PushAll, PopAll, *OffsetPlaceholder})
-             "": 11, "pusha": 12, "popa": 13, "CONFIGURABLES_OFFSET[0..32]": 14, "DATA": 15}
+             "": 11, "pusha": 12, "popa": 13, "CONFIGURABLES_OFFSET[0..32]": 14, "DATA": 15,
+             # the ALU fragment interpreted by coq/C07/CpModel.v (alu_of_opc)
+             "sub": 31, "mul": 32, "div": 33, "mod": 34, "exp": 35, "and": 36, "or": 37, "xor": 38, "sll": 39, "srl": 40,
+             "eq": 41, "lt": 42, "gt": 43, "not": 44, "addi": 45, "subi": 46, "muli": 47, "divi": 48, "modi": 49,
+             "expi": 50, "andi": 51, "ori": 52, "xori": 53, "srli": 55}
 RET_TEXT = "jal $zero $$reta i0"
 
 
@@ -42,7 +46,7 @@ class Interner:
         return self.tok[t]
 
     def opcode(self, m):
-        if m not in self.opc: self.opc[m] = 20 + len(self.opc)
+        if m not in self.opc: self.opc[m] = 100 + len(self.opc)
         return self.opc[m]
 
 
